@@ -37,7 +37,7 @@ def configs(tier, seed):
 
 def gen_workload(r):
   nm = r.randint(1, 6)
-  metrics = ['w%d' % i for i in range(nm)] + (['tag;a=b'] if r.random() < 0.2 else [])
+  metrics = ['w%d' % i for i in range(nm)] + (['tag;a=b'] if r.random() < 0.2 else []) + ([''] if r.random() < 0.1 else [])
   ops = []
   n = r.randint(3, 14)
   for i in range(n):
